@@ -51,6 +51,9 @@ var c12Reqs = []c12Req{
 	{"x-ext-resolve-finish", `{ x1 x2 }`, nil, nil, "failing", map[string]string{"E1.RE": "error", "E2.RE": "string", "E3.RE": "error"}},
 	{"x-ext-exec-finish", `{ x1 }`, nil, nil, "failing", map[string]string{"E1.EE": "error", "E2.EE": "error", "E3.EE": "int", "E1.VE": "error"}},
 	{"x-ext-parse-finish", `{ x1 }`, nil, nil, "failing", map[string]string{"E1.PE": "error", "E2.PE": "error", "E3.PE": "error"}},
+	{"d-struct-a", `{ plainA { name n tag } }`, nil, nil, "valid", nil},
+	{"d-struct-b", `{ plainB { name n tag } }`, nil, nil, "valid", nil},
+	{"d-ptr-map", `{ plainPtr { name n tag } plainMap { name n tag } plainTagged { name n tag } }`, nil, nil, "valid", nil},
 	{"s-types", `{ __schema { types { name kind } } }`, nil, nil, "introspection", nil},
 	{"s-iface", `{ __type(name:"Node") { fields { name args { name type { name } } } possibleTypes { name } } }`, nil, nil, "introspection", nil},
 	{"s-enum", `{ __type(name:"Kind") { enumValues { name } } }`, nil, nil, "introspection", nil},
@@ -308,6 +311,16 @@ func (c12) Run(t TestingT, scn json.RawMessage, tape *Tape) *Outcome {
 		o.Probe("via-" + sc.Cache)
 	}
 	o.Sample = map[string]interface{}{"scenario": sc, "request": rq.Query, "response": got[0]}
+	// the reference itself is compared across worker processes by the driver
+	// ("across fresh processes"): process-wide state leaking from earlier
+	// requests shows up as workers disagreeing about it
+	hr := fnv.New64a()
+	fmt.Fprint(hr, ref)
+	refName := rq.Name
+	if validate {
+		refName += "/validate"
+	}
+	o.Refs = map[string]string{refName: fmt.Sprintf("%016x", hr.Sum64())}
 	for i, g := range got {
 		if g != ref {
 			o.Violate("C12/differs@"+rq.Name, "request %q (%s, variant %s, execution %d) differs from its reference response (fresh schema, sorted order, no history)\n  %s",
